@@ -49,6 +49,10 @@ namespace GeographicLib {
     real
       xf = x - tile_ * xh,
       yf = y - tile_ * yh;
+    // x / tile_ underflows to -0 for tiny negative x, giving xh = 0 and xf < 0
+    // (and then a negative index into digits_).
+    if (xf < 0) xf = 0;
+    if (yf < 0) yf = 0;
     xh += tileoffx_;
     yh += tileoffy_;
     int z = 0;
